@@ -106,6 +106,10 @@ def model_e():
         K('S', 'D2'): op('+', cell('S', 'B1'), cell('S', 'B2')),
         K('S', 'D3'): op('*', cell('S', 'B4'), num(2)),
         K('S', 'D4'): fn('SUM', rng('S', 'B1:B4')),
+        # a range that wholly contains the block (and four constants)
+        K('S', 'D5'): fn('SUM', rng('S', 'A1:B4')),
+        # a range with exactly ONE populated cell, which is also read directly
+        K('S', 'F1'): const(('n', 5.0)), K('S', 'G1'): fn('SUM', rng('S', 'F1:F4')), K('S', 'G2'): op('*', cell('S', 'F1'), num(2)),
     })
     return {'cells': cells, 'arrays': {K('S', 'B1:B4'): op('*', rng('S', 'A1:A4'), num(10))}, 'names': {}, 'sheets': [[B, 'S']]}
 
